@@ -32,6 +32,12 @@ func (s *IndexStorage) SetIndex(idx *index.Index) (err error) {
 		if statErr == nil {
 			cp := copyIndex(idx)
 			cp.ModTime = fi.ModTime()
+			// The encoder does not write extensions: the file just
+			// written has none, whatever idx carried over from an
+			// earlier read (a stale cached tree in particular).
+			cp.Cache = nil
+			cp.ResolveUndo = nil
+			cp.EndOfIndexEntry = nil
 			s.cache.Set(cp, fi.ModTime(), fi.Size())
 		} else {
 			s.cache.Clear()
@@ -127,14 +133,19 @@ func (s *IndexStorage) Index() (i *index.Index, err error) {
 	return copyIndex(idx), nil
 }
 
-// copyIndex returns a shallow copy of the Index struct with its own
-// copy of the Entries slice, so that callers can append/remove entries
-// without affecting the cached copy. Individual *Entry pointers are
-// shared; this is safe because callers replace entries rather than
-// mutating them in place.
+// copyIndex returns a copy of the Index struct with its own Entries:
+// callers append, remove and also modify entries in place (Add on an
+// existing path, sparse checkout flags) before deciding whether to
+// write the index back, so sharing *Entry pointers with the cached copy
+// would let the cache drift away from the file on disk whenever such a
+// caller stops half-way. The entries are copied into one block.
 func copyIndex(idx *index.Index) *index.Index {
 	cp := *idx
+	block := make([]index.Entry, len(idx.Entries))
 	cp.Entries = make([]*index.Entry, len(idx.Entries))
-	copy(cp.Entries, idx.Entries)
+	for i, e := range idx.Entries {
+		block[i] = *e
+		cp.Entries[i] = &block[i]
+	}
 	return &cp
 }
